@@ -4,7 +4,8 @@
   What is signed is the hash of the compressed table of contents; the table of contents contains the signature ELEMENTS
   (sizes, certificates) but not the signature bytes.  `xar_digest_ignores_signature`: the document `Sign` serialises for an
   already signed archive is, node for node, the document it serialises for the archive before that signature — every
-  document, every pair of keys / hashes, no hypothesis on its shape.  `xar_resign_replaces`: at the level of files the
+  document, every pair of keys / hashes, no hypothesis on its shape.  `xar_sigarea_is_sum`: the tiling test of the repaired `removeSigs` (5d6eee4) returns the same number.
+  `xar_resign_replaces`: at the level of files the
   second signing removes exactly what the first one wrote (header, TOC, signature area) and the result is the file that
   signing the original once with the second key produces.  `xar_history`: hence for every sequence of successful signings.
   Hash kinds: one `hashType` drives the header field, the `style` of `<checksum>`, the TOC hash and the CMS digest; `Verify`
@@ -16,10 +17,29 @@ open Relic Relic.Xar
 
 /-- **xar_digest_ignores_signature.**  For every document `t` with a `/xar/toc`, every two keys / hashes: the second `Sign`
     finds as old signature size exactly what the first reserved, and serialises the document it serialises for `t` itself. -/
-theorem xar_digest_ignores_signature (N : Num) (hN : N.Laws) (hk1 hk2 : HK) (ki1 ki2 : KeyInfo) (h1 : ki1.small) (t : Xml)
+theorem xar_digest_ignores_signature (N : Num) (ea : Bool) (hN : N.Laws) (hk1 hk2 : HK) (ki1 ki2 : KeyInfo) (h1 : ki1.small) (t : Xml)
     (p1 p2 : Prep) (e1 : prep N hk1 ki1 t = some p1) (e2 : prep N hk2 ki2 t = some p2) :
-    ∃ p2', prep N hk2 ki2 (p1.tree N) = some p2' ∧ p2'.origSig = p1.newSig ∧ p2'.newSig = p2.newSig ∧ p2'.tree N = p2.tree N :=
-  prep_resign N hN hk1 hk2 ki1 ki2 h1 t p1 p2 e1 e2
+    ∃ p2', prep N hk2 ki2 (p1.tree N ea) = some p2' ∧ p2'.origSig = p1.newSig ∧ p2'.newSig = p2.newSig ∧
+      p2'.tree N ea = p2.tree N ea :=
+  prep_resign N ea hN hk1 hk2 ki1 ki2 h1 t p1 p2 e1 e2
+
+/-- **xar_sigarea_is_sum.**  The tiling test of the repaired `removeSigs` changes which archives are accepted, not the number
+    it returns: the sum of the `<size>` values of the removed elements, as before. -/
+theorem xar_sigarea_is_sum (N : Num) (hN : N.Laws) (ks : List Xml) (s : Int) (h : checkSigAreas N ks = .ok s) :
+    s = (removeSigs N ks).1 := checkSigAreas_eq_sum N hN ks s h
+
+/-- **xar_resign_layout_accepted.**  The layout tests fix 5d6eee4 put into `removeSigs` accept what `Sign` itself wrote: the
+    three elements `reserveSignatures` inserted are readable, at most 10^6 bytes each (a fact about the key: `KeyInfo.fits`),
+    and tile the heap from offset 0 to the reserved size.  So the etree surgery of the next `Sign` goes through and finds as
+    old signature size exactly the space the previous one reserved. -/
+theorem xar_resign_layout_accepted (N : Num) (ea : Bool) (hN : N.Laws) (hk1 hk2 : HK) (ki1 ki2 : KeyInfo) (h1 : ki1.small)
+    (hfit : ki1.fits) (t : Xml) (p1 p2 : Prep) (e1 : prep N hk1 ki1 t = some p1) (e2 : prep N hk2 ki2 t = some p2) :
+    ∃ q, prepFx N hk2 ki2 (p1.tree N ea) = .ok q ∧ q.origSig = p1.newSig ∧ q.newSig = p2.newSig ∧ q.tree N ea = p2.tree N ea := by
+  obtain ⟨p2', hpp, ho, hns, htr⟩ := prep_resign N ea hN hk1 hk2 ki1 ki2 h1 t p1 p2 e1 e2
+  obtain ⟨tks', htk, hck⟩ := tree_checkSigAreas N ea hN hk1 ki1 hfit t p1 e1
+  refine ⟨p2', ?_, ho, hns, htr⟩
+  unfold prepFx
+  simp only [hpp, htk, hck, ← ho]
 
 example (N : Num) (hk : HK) (ki : KeyInfo) :
     (prep N hk ki (.el "xar" [] [.el "toc" [] [.el "checksum" [] [], .el "file" [] []]])).isSome = true := by
@@ -39,19 +59,40 @@ theorem xar_resign_replaces (C : Crypto) (E : Env) (hE : E.Laws) (hH : ∀ k b, 
     ∀ rsa cms body2, newBytes C E so2 rsa cms = some body2 →
       newBytes C E so2' rsa cms = some body2 ∧
       written (written f so1.origTotal body1) so2'.origTotal body2 = written f so1.origTotal body2 := by
-  obtain ⟨hd, k0, t, n, p1, hp, _, _, hdec, hprep1, hso1, _⟩ := signPlan_ok C E f hk1 ki1 so1 hs1
-  obtain ⟨hd2, k02, t2, n2, p2, hp2, _, _, hdec2, hprep2, hso2, _⟩ := signPlan_ok C E f hk2 ki2 so2 hs2
+  obtain ⟨hd, k0, t, n, q1, hp, _, _, hdec, hfx1, hso1, _⟩ := signPlanG_ok true C E f hk1 ki1 so1 hs1
+  obtain ⟨hd2, k02, t2, n2, q2, hp2, _, _, hdec2, hfx2, hso2, _⟩ := signPlanG_ok true C E f hk2 ki2 so2 hs2
+  simp only [↓reduceIte] at hfx1 hfx2
   rw [hp] at hp2
   simp only [Except.ok.injEq, Prod.mk.injEq] at hp2
   obtain ⟨rfl, rfl⟩ := hp2
   rw [hdec] at hdec2
   simp only [Option.some.injEq, Prod.mk.injEq] at hdec2
   obtain ⟨rfl, rfl⟩ := hdec2
+  obtain ⟨p1, tks1, s1, hprep1, htk1, hck1, rfl⟩ := prepFx_ok E.num hk1 ki1 t q1 hfx1.1
+  obtain ⟨p2, tks2, s2, hprep2, htk2, hck2, rfl⟩ := prepFx_ok E.num hk2 ki2 t q2 hfx2.1
+  have hc0 : 0 ≤ hd.clen := hfx1.2.1
+  rw [htk1] at htk2
+  simp only [Option.some.injEq] at htk2
+  subst htk2
+  rw [hck1] at hck2
+  simp only [Except.ok.injEq] at hck2
+  subst hck2
+  have hs1sum := checkSigAreas_eq_sum E.num hE.num tks1 s1 hck1
   obtain ⟨hfit, hbody⟩ := newBytes_some C E so1 rsa1 cms1 body1 hb1
-  have hk1e : so1.hk = hk1 := by rw [hso1]
-  have ht1 : so1.tree = p1.tree E.num := by rw [hso1]
-  have hn1 : so1.newSig = p1.newSig := by rw [hso1]
   obtain ⟨ras, pre, tas, tks, post, ht1eq, hpre1, hp1eq⟩ := prep_some E.num hk1 ki1 _ p1 hprep1
+  obtain ⟨ras2, pre2, tas2, tks2, post2, ht2eq, hpre2, hp2eq⟩ := prep_some E.num hk2 ki2 _ p2 hprep2
+  have htkeq : tks1 = tks := by
+    rw [ht1eq, tocKids_build _ _ _ _ _ hpre1] at htk1
+    simpa using htk1.symm
+  have htkeq2 : tks1 = tks2 := by
+    rw [ht2eq, tocKids_build _ _ _ _ _ hpre2] at htk1
+    simpa using htk1.symm
+  have ho1 : p1.origSig = w64 s1 := by rw [hp1eq, hs1sum, htkeq]
+  have ho2 : p2.origSig = w64 s1 := by rw [hp2eq, hs1sum, htkeq2]
+  have hk1e : so1.hk = hk1 := by rw [hso1]
+  have ht1 : so1.tree = p1.tree E.num true := by rw [hso1]; exact tree_congr E.num true p1 s1 ho1
+  have ht2 : so2.tree = p2.tree E.num true := by rw [hso2]; exact tree_congr E.num true p2 s1 ho2
+  have hn1 : so1.newSig = p1.newSig := by rw [hso1]
   have hrb := reserve_size_bounds E.num hk1 ki1 hki1
   have hn1' : p1.newSig = (reserve E.num hk1 ki1).2 := by rw [hp1eq]
   have hsz := hk1.size_le
@@ -61,7 +102,9 @@ theorem xar_resign_replaces (C : Crypto) (E : Env) (hE : E.Laws) (hH : ∀ k b, 
         (C.H hk1 (E.encode so1.tree).1 ++ rsa1 ++ cms1 ++ zeros (so1.newSig.toNat - (so1.hk.size + rsa1.length + cms1.length)) ++
           f.drop so1.origTotal.toNat)) := by
     simp [written, hbody, hk1e, List.append_assoc]
-  obtain ⟨hd', k0', t', n', p', hp', _, _, hdec', hprep', hso2', _⟩ := signPlan_ok C E _ hk2 ki2 so2' hs2'
+  obtain ⟨hd', k0', t', n', q', hp', _, _, hdec', hfx', hso2', _⟩ := signPlanG_ok true C E _ hk2 ki2 so2' hs2'
+  simp only [↓reduceIte] at hfx'
+  obtain ⟨p', tks', s', hprep', htk', hck', rfl⟩ := prepFx_ok E.num hk2 ki2 t' q' hfx'.1
   rw [hg, parseHeader_newHdr hk1 _ _ (by omega) hul] at hp'
   simp only [Except.ok.injEq, Prod.mk.injEq] at hp'
   obtain ⟨rfl, rfl⟩ := hp'
@@ -75,37 +118,39 @@ theorem xar_resign_replaces (C : Crypto) (E : Env) (hE : E.Laws) (hH : ∀ k b, 
     · simp only [Int.toNat_natCast]
       exact sl_cat _ _ _ 28 _ (by simp [Hdr.enc_length]) rfl
   simp only [newHdr] at hdec'
-  rw [hreg] at hdec'
-  obtain ⟨nn, hdz⟩ := hE.dec_enc so1.tree
-  rw [hdz] at hdec'
+  rw [hreg, hE.dec_enc so1.tree] at hdec'
   simp only [Option.some.injEq, Prod.mk.injEq] at hdec'
   obtain ⟨rfl, rfl⟩ := hdec'
-  obtain ⟨p2'', hpp, ho, hns, htr⟩ := prep_resign E.num hE.num hk1 hk2 ki1 ki2 hki1 t p1 p2 hprep1 hprep2
+  obtain ⟨p2'', hpp, ho, hns, htr⟩ := prep_resign E.num true hE.num hk1 hk2 ki1 ki2 hki1 t p1 p2 hprep1 hprep2
   rw [ht1, hpp] at hprep'
   simp only [Option.some.injEq] at hprep'
   subst hprep'
+  obtain ⟨tksx, htx, hsumx⟩ := tree_tocKids E.num true hE.num hk1 ki1 hki1 t p1 hprep1
+  rw [ht1, htx] at htk'
+  simp only [Option.some.injEq] at htk'
+  subst htk'
+  have hs' : s' = p1.newSig := by rw [checkSigAreas_eq_sum E.num hE.num _ s' hck', hsumx]
+  have ht2' : so2'.tree = p2''.tree E.num true := by
+    rw [hso2']
+    exact tree_congr E.num true p2'' s' (by rw [ho, hs']; exact (w64_id (by unfold inI64; omega)).symm)
   have hblen : body1.length = 28 + (E.encode so1.tree).1.length + so1.newSig.toNat := by
     rw [hbody]
     simp only [List.length_append, Hdr.enc_length, hH, zeros, List.length_replicate]
     omega
   have hot : so2'.origTotal = body1.length := by
     rw [hso2']
-    simp only [newHdr, ho, ← hn1]
+    simp only [newHdr, hs', ← hn1]
     rw [w64_id (by unfold inI64; omega), hblen]
     omega
-  have hoo : so2.origTotal = so1.origTotal := by
-    obtain ⟨ras2, pre2, tas2, tks2, post2, ht2eq, hpre2, hp2eq⟩ := prep_some E.num hk2 ki2 _ p2 hprep2
-    rw [ht1eq] at ht2eq
-    simp only [Xml.el.injEq, true_and] at ht2eq
-    obtain ⟨_, ht, _⟩ := append_cons_unique "toc" _ _ _ _ _ _ ht2eq.2 hpre1 hpre2 (by simp) (by simp)
-    simp only [Xml.el.injEq, true_and] at ht
-    rw [hso2, hso1, hp1eq, hp2eq, ht.2]
-  refine ⟨by rw [hso2', hso2]; exact htr, by rw [hso2', hso2]; exact hns, by rw [hso2', ho, hn1], hot, hoo, ?_⟩
+  have hoo : so2.origTotal = so1.origTotal := by rw [hso2, hso1]
+  refine ⟨by rw [ht2', ht2]; exact htr, by rw [hso2', hso2]; exact hns, by rw [hso2']; simp only [hs', hn1], hot, hoo, ?_⟩
   intro rsa cms body2 hb2
   have hnb : newBytes C E so2' rsa cms = newBytes C E so2 rsa cms := by
+    have e1 : so2'.tree = so2.tree := by rw [ht2', ht2]; exact htr
+    have e2 : so2'.newSig = so2.newSig := by rw [hso2', hso2]; exact hns
+    have e3 : so2'.hk = so2.hk := by rw [hso2', hso2]
     unfold newBytes
-    rw [hso2', hso2]
-    simp only [htr, hns]
+    rw [e1, e2, e3]
   refine ⟨by rw [hnb]; exact hb2, ?_⟩
   rw [hot]
   unfold written
@@ -179,18 +224,27 @@ theorem xar_history_partial (C : Crypto) (E : Env) (hE : E.Laws) (hH : ∀ k b, 
       have := xar_history_partial C E hE hH f0 hsmall hsize rs r2 g2 key (fun r' hr' => hdirect r' (List.mem_cons_of_mem _ hr')) g' h
       simpa using this
 
-/-- the full statement (every signing of a regular archive SUCCEEDS, so the success hypotheses of `xar_history_partial` can
-    be dropped): needs the forward-only member check of `Sign` to pass on relic's own output, i.e. the sorted member ranges of
-    the input to be disjoint — true for what the xar tools write, not proved here -/
+/-- the full statement (every signing of relic's own output SUCCEEDS, so the success hypotheses of `xar_history_partial` can
+    be dropped).  Since fix 5d6eee4 the layout part is decided by `Sign` itself and proved: the old signature elements of `g`
+    are the three `reserve` wrote, and they tile `[0, newSig)` (`xar_resign_layout_accepted`).  Hypotheses the statement
+    needs: `regularDoc` (a member whose `<offset>` does not parse is read as offset 0 by `checkFiles` and left alone by
+    `adjustOffsets`: accepted while there is no signature area, refused with `ffront` once there is one); `KeyInfo.fits`
+    (RSA size and `6144 + len(certs)` at most 10^6, the new limit on a `<size>`) and the re-serialised TOC within `Sign`'s
+    own 10^6 / 10^7 limits — facts about keys and the serialiser, not about the archive.  Still missing for a theorem: the
+    forward-only member check of `Sign` (`checkAllStream`, an `io.Reader` that cannot seek back) passes on `g` whenever it
+    passed on `f0` — a simulation over the sorted member list under a uniform shift. -/
 def xar_history_full : Prop :=
   ∀ (C : Crypto) (E : Env), E.Laws → (∀ k b, (C.H k b).length = k.size) →
-  ∀ (f0 : Bytes) (r : XarRound) (g : Bytes), XarSignedOnce C E f0 r g → ∀ r2 : XarRound, (xarSignFile C E f0 r2).isSome → (xarSignFile C E g r2).isSome
+  ∀ (f0 : Bytes) (r : XarRound) (g : Bytes), XarSignedOnce C E f0 r g → r.ki.small → r.ki.fits →
+    (∀ hd k t n, parseHeader f0 = .ok (hd, k) → E.decode (region f0 28 hd.clen) = some (t, n) → regularDoc E.num t = true) →
+    (∀ hd k, parseHeader g = .ok (hd, k) → hd.clen ≤ 1000000 ∧ hd.ulen ≤ 10000000) →
+    ∀ r2 : XarRound, (xarSignFile C E f0 r2).isSome → (xarSignFile C E g r2).isSome
 
 /-- **xar_checksum_style_unchecked.**  `Open` compares the `<size>` of `<checksum>` with the size of the header's hash and
     reads the bytes; the `style` attribute plays no part (nor does the `style` of `<signature>` / `<x-signature>`). -/
-theorem xar_checksum_style_unchecked (E : Env) (f : Bytes) (k : HK) (reg : Bytes) (n : Nat) (toc : XToc) (base : Int) (s : String) :
-    (openBody E f k reg n { toc with ck := { toc.ck with style := s } } base).checks = (openBody E f k reg n toc base).checks ∧
-    ((openBody E f k reg n { toc with ck := { toc.ck with style := s } } base).final.isOk = (openBody E f k reg n toc base).final.isOk) := by
+theorem xar_checksum_style_unchecked (fx : Bool) (E : Env) (f : Bytes) (k : HK) (reg : Bytes) (n : Nat) (toc : XToc) (base : Int) (s : String) :
+    (openBody fx E f k reg n { toc with ck := { toc.ck with style := s } } base).checks = (openBody fx E f k reg n toc base).checks ∧
+    ((openBody fx E f k reg n { toc with ck := { toc.ck with style := s } } base).final.isOk = (openBody fx E f k reg n toc base).final.isOk) := by
   unfold openBody
   simp only
   split
@@ -198,10 +252,10 @@ theorem xar_checksum_style_unchecked (E : Env) (f : Bytes) (k : HK) (reg : Bytes
   · split
     · simp [Plan.fail]
     · simp only [openRest, true_and]
-      cases readSig E f base toc.sig with
+      cases readSig fx E f base toc.sig with
       | ok sg =>
         simp only [Res.bind]
-        cases readXSig f base toc.xsig with
+        cases readXSig fx f base toc.xsig with
         | ok x =>
           simp only
           cases readTicket f toc.files base <;> rfl
